@@ -293,6 +293,38 @@ pub fn replay(a: &Args) -> i32 {
             }
         }
     }
+    // (d) undecodable payloads whose error text is long and not ASCII (serde echoes the offending
+    // string): an error status, never a panic - at every alignment of 2-, 3- and 4-byte characters
+    for ch in ['\u{e9}', '\u{20ac}', '\u{1d11e}'] {
+        for pad in 0..4usize {
+            evaluations += 1;
+            let text = format!("\"{}{}\"", "a".repeat(pad), ch.to_string().repeat(700));
+            let body = Bytes::from(text.into_bytes());
+            for path in ["/Greeter/Say", "/p.q.Greeter/SayHello", "/c17.Probe/UnitJ", "/c17.Probe/OptJ"] {
+                let mut r = router.clone();
+                let b = body.clone();
+                let res = std::panic::catch_unwind(std::panic::AssertUnwindSafe(|| rt.block_on(r.call(Request::new(b).with_route(path)))));
+                let ran = log.lock().unwrap().drain(..).collect::<Vec<_>>();
+                match res {
+                    Ok(Ok(resp)) if resp.status() != StatusCode::Success && ran.is_empty() => {}
+                    Ok(Ok(resp)) => mismatches.push(json!({"what": format!("{path}: a long non-ASCII undecodable request was answered {:?}, handlers run {ran:?}", resp.status())})),
+                    Ok(Err(_)) => {}
+                    Err(_) => mismatches.push(json!({"what": format!("{path}: the generated server panicked on an undecodable request whose error text is long and not ASCII ({} bytes, pad {pad})", body.len())})),
+                }
+            }
+            let b2 = body.clone();
+            let canned = tower::service_fn(move |_req: Request<Bytes>| {
+                let b = b2.clone();
+                async move { Ok::<_, std::convert::Infallible>(Response::new(b)) }
+            });
+            let mut c = gen::pq_greeter::greeter_client::GreeterClient::new(canned);
+            match std::panic::catch_unwind(std::panic::AssertUnwindSafe(|| rt.block_on(c.say_hello(Msg { a: 1, s: "x".into() })))) {
+                Ok(Err(_)) => {}
+                Ok(Ok(_)) => mismatches.push(json!({"what": "a long non-ASCII undecodable response surfaced as a success"})),
+                Err(_) => mismatches.push(json!({"what": format!("the generated client panicked on an undecodable response whose error text is long and not ASCII (pad {pad})")})),
+            }
+        }
+    }
     // a response the client cannot decode, and a non-success status, surface as Err
     {
         evaluations += 2;
